@@ -447,3 +447,122 @@ Proof.
   unfold accept_conns in Ha. rewrite forallb_forall in Ha. specialize (Ha _ I). cbn [fst snd] in Ha.
   apply accept_conn_not_starved in Ha. congruence.
 Qed.
+
+(* ---------------- deepening round 4 ---------------- *)
+
+(* membership in free_ports, spelled out *)
+Lemma free_ports_In n s lo hi busy p : lo <= hi + 1 ->
+  In p (free_ports n s lo hi busy) <-> lo <= p <= hi /\ p mod n = s /\ ~ In p busy.
+Proof.
+  intros H. unfold free_ports. rewrite filter_In, (spec_ports_In n s lo hi p H), negb_true_iff.
+  split.
+  - intros [[Hr Hm] Hb]. repeat split; try tauto. intros I. apply memb_In in I. congruence.
+  - intros (Hr & Hm & Hb). split; [tauto|]. destruct (memb p busy) eqn:E; [|reflexivity].
+    apply memb_In in E. contradiction.
+Qed.
+
+(* the connections opened by successive runs use pairwise distinct ports *)
+Theorem open_many_NoDup n s lo hi pivots busy :
+  0 < n -> s < n -> lo <= hi -> hi <= u16_max ->
+  NoDup (open_many n s lo hi pivots busy).
+Proof.
+  intros Hn Hs Hle Hhi. revert busy.
+  induction pivots as [|pv r IH]; intros busy; [constructor|].
+  cbn [open_many].
+  destruct (open_shard_aware n s lo hi pv (env_busy busy)) as [p|p e|] eqn:E; try apply IH.
+  constructor; [|apply IH].
+  intros I. apply (open_many_In n s lo hi r (p :: busy) p Hn Hs Hle Hhi) in I.
+  destruct I as (_ & _ & Hb). apply Hb. now left.
+Qed.
+
+(* enough runs use up EVERY free port of the shard *)
+Theorem open_many_exhaust n s lo hi pivots busy :
+  0 < n -> s < n -> lo <= hi -> hi <= u16_max ->
+  (List.length (free_ports n s lo hi busy) <= List.length pivots)%nat ->
+  Permutation (open_many n s lo hi pivots busy) (free_ports n s lo hi busy).
+Proof.
+  intros Hn Hs Hle Hhi Hlen.
+  apply NoDup_Permutation_bis.
+  - now apply open_many_NoDup.
+  - rewrite (open_many_length n s lo hi pivots busy Hn Hs Hle Hhi). lia.
+  - intros p I. apply (free_ports_In n s lo hi busy p); [lia|].
+    exact (open_many_In n s lo hi pivots busy p Hn Hs Hle Hhi I).
+Qed.
+
+(* the loop's outcome in a known environment, with the pivot on a free port, is that port *)
+Lemma open_sa_pivot_on_free n s lo hi busy k p :
+  nth_error (ports_for_shard n s lo hi) k = Some p -> memb p busy = false ->
+  open_shard_aware n s lo hi k (env_busy busy) = Conn p.
+Proof.
+  intros Hk Hb. unfold open_shard_aware, iter_ports.
+  destruct (rot_head _ k p Hk) as [r ->]. cbn [connect_loop]. unfold env_busy. now rewrite Hb.
+Qed.
+
+(* the driver's question, asked with k = max 1 (number of ports of the shard) or more pivots, has a
+   closed answer: the port is a port of the shard's set that is not busy *)
+Theorem some_pivot_gives_all n s lo hi busy port k :
+  0 < n -> s < n -> lo <= hi -> hi <= u16_max ->
+  (List.length (spec_ports n s lo hi) <= k)%nat ->
+  some_pivot_gives n s lo hi busy port k = true <->
+  lo <= port <= hi /\ port mod n = s /\ ~ In port busy.
+Proof.
+  intros Hn Hs Hle Hhi Hk. rewrite some_pivot_gives_iff. split.
+  - intros (pv & _ & E).
+    destruct (open_sa_conn n s lo hi Hn Hs Hle Hhi pv _ port E) as (Hr & Hm & Hc).
+    apply env_busy_conn in Hc. repeat split; try tauto.
+    intros I. apply memb_In in I. congruence.
+  - intros (Hr & Hm & Hb).
+    assert (In port (ports_for_shard n s lo hi)) as I.
+    { rewrite (ports_for_shard_spec n s lo hi Hn Hs Hle Hhi). apply spec_ports_In; [lia|tauto]. }
+    apply In_nth_error in I. destruct I as [i Hi].
+    exists i. split.
+    + assert (i < List.length (ports_for_shard n s lo hi))%nat as Hl
+        by (apply nth_error_Some; congruence).
+      rewrite (ports_for_shard_spec n s lo hi Hn Hs Hle Hhi) in Hl. lia.
+    + apply open_sa_pivot_on_free; [exact Hi|].
+      destruct (memb port busy) eqn:E; [|reflexivity]. apply memb_In in E. contradiction.
+Qed.
+
+(* shard_of_source_port (what the NODE computes from the source port): an independent
+   characterisation -- the unique r < n with port = q * n + r *)
+Theorem source_port_spec n port r : 0 < n ->
+  shard_of_source_port n port = r <-> r < n /\ exists q, port = q * n + r.
+Proof.
+  intros Hn. unfold shard_of_source_port. split.
+  - intros <-. split; [apply N.mod_lt; lia|]. exists (port / n).
+    rewrite (N.div_mod port n) at 1 by lia. lia.
+  - intros (Hr & q & ->). rewrite N.add_comm, N.mod_add by lia. apply N.mod_small. exact Hr.
+Qed.
+
+(* the iterator and the node's assignment are inverse to each other: a port of the range is produced
+   for shard s (for every pivot) iff the node files a connection from that port under s *)
+Theorem source_port_iter n s lo hi pivot p :
+  0 < n -> s < n -> lo <= hi -> hi <= u16_max -> lo <= p <= hi ->
+  In p (iter_ports n s lo hi pivot) <-> shard_of_source_port n p = s.
+Proof.
+  intros Hn Hs Hle Hhi Hr. rewrite (iter_ports_In n s lo hi pivot p Hn Hs Hle Hhi).
+  unfold shard_of_source_port. tauto.
+Qed.
+
+(* ShardInfo parsing, full strength: Ok exactly for three present non-empty entries whose first
+   strings parse (u16, u16, u8) with shard < nr_shards -- and then these three numbers *)
+Theorem parse_shard_info_ok_iff se ne me shard nr msb :
+  parse_shard_info se ne me = Ok (shard, nr, msb) <->
+  exists s rs n rn m rm,
+    se = Some (s :: rs) /\ ne = Some (n :: rn) /\ me = Some (m :: rm) /\
+    parse_unsigned 65535 s = Some shard /\ parse_unsigned 65535 n = Some nr /\
+    parse_unsigned 255 m = Some msb /\ shard < nr.
+Proof.
+  split.
+  - unfold parse_shard_info. intros H.
+    destruct se as [[|s rs]|], ne as [[|n rn]|], me as [[|m rm]|]; try discriminate.
+    destruct (parse_unsigned 65535 s) as [sh|] eqn:Es; [|discriminate].
+    destruct (parse_unsigned 65535 n) as [nr'|] eqn:En; [|discriminate].
+    destruct (nr' =? 0) eqn:E0; [discriminate|].
+    destruct (parse_unsigned 255 m) as [mb|] eqn:Em; [|discriminate].
+    destruct (nr' <=? sh) eqn:E1; [discriminate|].
+    inversion H; subst. exists s, rs, n, rn, m, rm. repeat split; try reflexivity; try assumption. lia.
+  - intros (s & rs & n & rn & m & rm & -> & -> & -> & Es & En & Em & Hlt).
+    unfold parse_shard_info. rewrite Es, En, Em.
+    destruct (nr =? 0) eqn:E0; [lia|]. destruct (nr <=? shard) eqn:E1; [lia|]. reflexivity.
+Qed.
